@@ -23,6 +23,8 @@ META = {
     'technique': 'Coq proof over a hand-written model + exhaustive small-scope model/implementation correspondence on generated packages + implementation-side oracle',
 }
 
+# fingerprints of the functions Gate.v models (tree with the nine fix: commits)
+FP_EXPECTED = {'_verify': 'ee43172ee8d732bf', '_walk': '5f656ab83b2c913f', '_get_rules': 'b3af5f2c56d4916b', 'rule_01': 'a4f8a84cc773b29f', 'rule_02': '8439d504243be0f7', 'rule_03': 'aa7f95c1e8f84ed9', 'rule_04': '061f18bacdd7b273', 'rule_05': 'b9c2f146446011a3', 'rule_06': 'f2ec9add2492e7a4', 'rule_07': 'f58cae7763d83ac4', 'rule_08': 'a1c113ec311d634d', 'rule_09': '8b8e955e05cce001', 'rule_10': 'd7bae0eb424c13b6', 'rule_11': '6079ff89c825cec7'}
 FP_FUNCS = ['_verify', '_walk', '_get_rules'] + ['rule_%02d' % i for i in range(1, 12)]
 
 
@@ -58,12 +60,12 @@ def build_cases(ctx):
     if ctx.quick:
         # every (fault, position type/kind) pair at least once per subset size,
         # all positions for the full mix, a seeded sample of the rest
-        keep = [c for c in full if len(c[0]) == 4 or len(c[0]) == 1]
-        rest = [c for c in full if len(c[0]) in (2, 3)]
+        keep = [c for c in full if len(c[0]) == 4]
+        rest = [c for c in full if len(c[0]) < 4]
         rng.shuffle(rest)
         seen = set()
         for c in rest:
-            key = (tuple(c[0]), c[1], c[2][0], c[2][1])
+            key = (tuple(c[0]), c[1])
             if key not in seen:
                 seen.add(key)
                 keep.append(c)
@@ -79,7 +81,7 @@ def build_cases(ctx):
                           'eng': eng, 'style': style, 'class': 'fault', 'kinds': ks,
                           'fault': fault, 'pos': list(pos), 'pkgs': [2]})
     # (c) random multi-fault engines (correspondence beyond single faults)
-    for n in range(ctx.n(150, 1500)):
+    for n in range(ctx.n(100, 1500)):
         r = random.Random('%s:multi:%d' % (ctx.seed, n))
         ks = r.choice(subsets[1:])
         eng = D.small_engine(ks, nalg=r.choice([1, 2, 3]))
@@ -193,8 +195,8 @@ def run(ctx):
         'engine descriptors rendered as real package directories: every subset of '
         'the four factory kinds (16, compliant, both factory styles) x every fault '
         'kind of c16_desc.FAULTS x every applicable position of a 2-algorithm-per-'
-        'factory package (thorough: all; quick: all for 1- and 4-kind mixes, one per '
-        '(mix, fault, position type, kind) otherwise) + seeded multi-fault engines + '
+        'factory package (thorough: all 3512; quick: all for the 4-kind mix, one seeded '
+        'position per (mix, fault kind) otherwise) + seeded multi-fault engines + '
         'quirk engines (duplicate names, prefix package names) + random acyclic '
         'multi-package engines for Construct/build.  A case is non-trivial when the '
         'package offers a factory-kind subset other than {task} or carries a fault.')
@@ -226,7 +228,20 @@ def run(ctx):
     proofs_ok = r['ok']
 
     # ---- implementation -----------------------------------------------------
-    cases = build_cases(ctx)
+    escalate = fp != FP_EXPECTED
+    ctx.note('fingerprint_escalation', escalate)
+    if ctx.replay:
+        rp = json.load(open(ctx.replay))
+        cases = [rp['case']] if 'case' in rp else []
+        ctx.log('replaying %s' % (cases[0]['id'] if cases else 'nothing'))
+    else:
+        if escalate and ctx.quick:
+            ctx.log('compliant.py differs from the modelled text: thorough depth')
+            ctx.quick = False
+            cases = build_cases(ctx)
+            ctx.quick = True
+        else:
+            cases = build_cases(ctx)
     payload = {'cases': [{k: c[k] for k in ('id', 'eng', 'style', 'pkgs', 'sched') if k in c}
                          for c in cases]}
     impl = ctx.harness('drive_gate.py', payload)
@@ -253,7 +268,8 @@ def run(ctx):
                 bad = [pi for pi, v in o['verify'].items() if not v]
                 rules = {pi: [impl['rules'][i] for i, x in enumerate(o['rules'][pi])
                               if x is not True] for pi in bad}
-                hits += ctx.violation('compliant-rejected', {'kinds': c['kinds'], 'style': c['style']},
+                hits += ctx.violation('compliant-rejected',
+                                      {'rules': sorted({x for v in rules.values() for x in v})},
                               'compliant package (factory kinds %s, %s style) REJECTED by %s'
                               % (c['kinds'], c['style'], rules),
                               {'source': 'oracle', 'theorem': 'C16_sound_complete', 'case': c,
@@ -261,7 +277,8 @@ def run(ctx):
             s = o.get('sched')
             if s is not None and o['verify_all'] and (
                     s.get('construct') != 'ok' or s.get('build') != 'ok'):
-                hits += ctx.violation('accepted-not-schedulable', {'kinds': c['kinds']},
+                hits += ctx.violation('accepted-not-schedulable',
+                                      {'stage': 'construct' if s.get('construct') != 'ok' else 'build'},
                               'accepted acyclic engine %s fails Construct/build: %s'
                               % (c['id'], s),
                               {'source': 'oracle', 'theorem': 'C16_schedulable', 'case': c,
@@ -283,8 +300,7 @@ def run(ctx):
                                    'observed': o})
                 else:
                     hits += ctx.violation('fault-accepted',
-                                  {'fault': f, 'rule': D.FAULTS[f][1], 'kinds': c['kinds'],
-                                   'at': c['pos'][:2]},
+                                  {'fault': f, 'rule': D.FAULTS[f][1]},
                                   'single fault %s (rule %d) at %s in a %s package ACCEPTED'
                                   % (f, D.FAULTS[f][1], c['pos'], c['kinds']),
                                   {'source': 'oracle', 'theorem': 'C16_single_fault', 'case': c,
